@@ -5,7 +5,7 @@ from lv import core, noise, parsers, syntaxgen
 
 ID = 'C15'
 BUDGET = {'quick': 2400, 'thorough': 60000}     # generated programs; 4 parses each
-WALL = {'quick': 170, 'thorough': 1500}
+WALL = {'quick': 600, 'thorough': 3600}
 RULE = ('programs of the syntactic grammar generator lv/syntaxgen.py, printed twice: base '
         'text and a noisy text with whitespace / newlines / tabs / # and /* */ comments '
         'inserted at token boundaries (only bare /* */ inside glued tokens), redundant '
